@@ -93,7 +93,7 @@ Lemma gen_join_names srca srcb p a b on_a on_b jt lf usg n q n' :
 Proof.
   intros HA HB H. unfold gen_join in H. destruct (negb (subset _ _)); [discriminate|]. unfold bind in H.
   destruct (srca _ (S n)) as [[ql n2]| |] eqn:EA; try discriminate. destruct (srcb _ n2) as [[qr n3]| |] eqn:EB; try discriminate.
-  injection H as <- <-. apply names_join; [exact (HA _ _ _ _ EA)|exact (HB _ _ _ _ EB)].
+  injection H as <- <-. apply (names_join n n2 n3 ql qr); [exact (HA _ _ _ _ EA)|exact (HB _ _ _ _ EB)].
 Qed.
 
 Theorem view_names_ok : forall fuel d p usg n q n', to_near_f fuel d p usg n = Ok (q, n') -> names_ok n n' q.
@@ -133,7 +133,7 @@ Proof.
   - destruct (negb (subset _ _)); [discriminate|]. destruct (negb (set_eqb _ _)); [discriminate|]. unfold bind in H.
     destruct (to_near_f fuel d _ _ n) as [[ql n1]| |] eqn:EL; try discriminate.
     destruct (to_near_f fuel d _ _ n1) as [[qr n2]| |] eqn:ER; try discriminate. injection H as <- <-.
-    apply names_concat; [reflexivity|reflexivity|exact (IH _ _ _ _ _ _ EL)|exact (IH _ _ _ _ _ _ ER)].
+    apply (names_concat n n1 n2 ql qr); [reflexivity|reflexivity|exact (IH _ _ _ _ _ _ EL)|exact (IH _ _ _ _ _ _ ER)].
 Qed.
 
 Lemma view_names_distinct d p usg ids q ids' : to_near d p usg ids = Ok (q, ids') ->
